@@ -207,6 +207,8 @@ def run(ctx):
     jobs = [(3, 4, 8), (4, 8, 10 if not ctx.thorough else 11), (2, 2, 6), (3, 4, 9)] if not ctx.thorough else [(3, 4, 9), (4, 8, 12), (2, 2, 7), (3, 2, 8)]
     n_real = WARM + 2 ** 14 if not ctx.thorough else 2 ** 21
     rjobs = [('dec_asc', 0, n_real, True), ('hexhash', 4, n_real, False)]
+    if not ctx.thorough:
+        rjobs.append(('lcg', 0, 2 ** 21, False))    # one stream to the end of the stated range in the quick tier as well
     if ctx.thorough:
         rjobs += [('dec_desc', 0, n_real, False), ('lcg', 0, n_real, False), ('dec_asc', 4, n_real, False), ('lcg', 4, n_real, True)]
     res = pmap(_dispatch, [('s', j) for j in jobs] + [('r', j) for j in rjobs] + [('p', None)])
